@@ -148,7 +148,15 @@ func docEquals(rv reflect.Value, doc any, tagKey string) (bool, string) {
 			return false, fmt.Sprintf("map has %d entries, document %d", rv.Len(), len(m))
 		}
 		for k, dv := range m {
-			ev := rv.MapIndex(reflect.ValueOf(k))
+			kv := reflect.ValueOf(k)
+			if rv.Type().Key().Kind() != reflect.String {
+				n, ok := intLiteral(k)
+				if !ok || !n.IsInt64() {
+					return false, fmt.Sprintf("map with %s keys holds an entry for the document key %q", rv.Type().Key(), k)
+				}
+				kv = reflect.ValueOf(n.Int64()).Convert(rv.Type().Key())
+			}
+			ev := rv.MapIndex(kv)
 			if !ev.IsValid() {
 				return false, fmt.Sprintf("key %q missing", k)
 			}
